@@ -109,6 +109,36 @@ let rec result_cells (g : n geomT) : string list * string list * string list =
   | GColl (_, gs) ->
     List.fold_left (fun (a, b, c) g' -> let (x, y, z) = result_cells g' in (a @ x, b @ y, c @ z)) ([], [], []) gs
 let sorted l = List.sort compare l
+(* cyclic sequences of points: the lexicographically smallest rotation *)
+let canon_cycle (ps : string list) : string =
+  let a = Array.of_list ps in
+  let n = Array.length a in
+  if n = 0 then "" else begin
+    let rot k = String.concat "," (List.init n (fun i -> a.((i + k) mod n))) in
+    let best = ref (rot 0) in
+    for k = 1 to n - 1 do let r = rot k in if compare r !best < 0 then best := r done;
+    !best
+  end
+let drop_last l = match List.rev l with [] -> [] | _ :: r -> List.rev r
+(* polygons of a result: (exterior ring, sorted holes) as canonical cyclic point sequences *)
+let rec result_polygons (g : n geomT) : (string * string list) list =
+  let ring (MkLine (_, vs)) = canon_cycle (drop_last (List.map vstr vs)) in
+  let poly (MkPoly (_, rs)) = match rs with [] -> [] | sh :: hs -> [ (ring sh, sorted (List.map ring hs)) ] in
+  match g with
+  | GPoly y -> poly y
+  | GMPoly (_, ys) -> List.concat_map poly ys
+  | GColl (_, gs) -> List.concat_map result_polygons gs
+  | _ -> []
+(* twice the signed area contribution of a half edge: sum of x_k y_(k+1) - x_(k+1) y_k over its points *)
+let edge_weight (pts : string array) : q =
+  let xy s = match String.split_on_char ' ' s with
+    | [x; y] -> (f64_or0 (n_of_hex x), f64_or0 (n_of_hex y)) | _ -> failwith "bad point" in
+  let acc = ref (q_of_int 0) in
+  for k = 0 to Array.length pts - 2 do
+    let (x0, y0) = xy pts.(k) and (x1, y1) = xy pts.(k + 1) in
+    acc := qplus !acc (qminus (qmult x0 y1) (qmult x1 y0))
+  done;
+  qred !acc
 
 type res = Good of string * q geomT * q geomT * bool * int   (* dump, exact value, snapped value, valid, moved *)
          | Bad of string
@@ -359,7 +389,22 @@ let () =
                       if sorted g <> sorted m then
                         failc "CORR" ("dcel_select_" ^ what)
                           (Printf.sprintf "result=%s overlay=%s impl has %d model has %d" rn oname (List.length g) (List.length m)) in
-                    cmp "polygon_boundary" gsegs msegs; cmp "lines" glines mlines; cmp "points" gpts mpts) uses
+                    cmp "polygon_boundary" gsegs msegs; cmp "lines" glines mlines; cmp "points" gpts mpts;
+                    (* ring walk, grouping and exterior/hole decision of extractPolygons, ring by ring *)
+                    let weights = lazy (Array.map edge_weight o.eseq) in
+                    let w i = (Lazy.force weights).(int_of_nat i) in
+                    (match extract_polygons op o.cx w with
+                     | None -> failc "CORR" "dcel_rings" (Printf.sprintf "result=%s overlay=%s the model's ring extraction did not terminate / found no exterior ring" rn oname)
+                     | Some ps ->
+                       count "ring_extractions_compared";
+                       let cyc ring = canon_cycle (List.concat_map (fun i -> drop_last (Array.to_list o.eseq.(int_of_nat i))) ring) in
+                       let mp = List.map (fun p -> (cyc p.p_exterior, sorted (List.map cyc p.p_holes))) ps in
+                       let gp = result_polygons rg in
+                       if sorted mp <> sorted gp then
+                         failc "CORR" "dcel_rings" (Printf.sprintf "result=%s overlay=%s impl has %d polygons, model has %d (rings differ)" rn oname (List.length gp) (List.length mp));
+                       List.iter (fun p -> count "polygons_extracted"; count ("rings_in_polygon_" ^ string_of_int (min 4 (1 + List.length p.p_holes)));
+                                   if not p.p_one_ccw then
+                                     failc "SPEC" "dcel_ring_orientation" (Printf.sprintf "result=%s overlay=%s a polygon does not have exactly one counter-clockwise ring" rn oname)) ps)) uses
             end
           end) !overlays;
       (* ---------------- CORR: the assembly switch (the dispatch is judged with the laws below) *)
